@@ -214,6 +214,40 @@ Section Cascade.
     | _ => Ok v1
     end.
 
+  (* cascadeValue, style.go:398-487, for ANY element: `parent` is c.parentStyle (its computed
+     values), None on the root element (nil).  Reading the parent's value on the root is the
+     nil dereference `Panic 2`.  The order of the steps is the order of the code: the pending
+     value is substituted and validated first (fallback 451-463: the parent's value for an
+     inherited property of a non-root element, else the initial value), THEN "inherit on the
+     root element means initial" (466-470), so that an `inherit` produced by the substitution
+     (`--v: inherit; color: var(--v)`) is covered as well, then initial / inherit. *)
+  Definition cascade_value_at (parent : option (str -> value)) (fuel : nat) (e : env) (key : str)
+             (casc : option (value * str)) : res value :=
+    let '(v, sh) :=
+      match casc with
+      | Some c => c
+      | None => (if (inherited key || is_custom_name key)%bool then VInherit else VInitial, [])
+      end in
+    let* v1 :=
+      match v with
+      | VRaw raw =>
+          let* p := pending_value fuel e key sh raw in
+          match p with
+          | Some d => Ok d
+          | None => Ok (match parent with
+                        | Some pv => if inherited key then pv key else initial_value key
+                        | None => initial_value key
+                        end)
+          end
+      | _ => Ok v
+      end in
+    let v2 := match v1, parent with VInherit, None => VInitial | _, _ => v1 end in
+    match v2 with
+    | VInitial => Ok (initial_value key)
+    | VInherit => match parent with Some pv => Ok (pv key) | None => Panic 2 end
+    | _ => Ok v2
+    end.
+
   (* which declaration of a block wins for `key` (one origin, one selector:
      the order of style.go's cascade restricted to a single rule): the last
      important one, else the last one *)
